@@ -562,6 +562,53 @@ class Item:
         self.log.append({"kind": "drop-log", "count": n, "args_with_arithmetic_or_index": risky,
                          "why": "logging only; arguments are not evaluated in the verified text"})
 
+    def sinks(self, expect, fn="ext_sink"):
+        """`write!(f, fmt, a, b)` / `writeln!(f, fmt, a, b)`  ==>  `ext_sink(f, (a, b,))`.
+        The formatting is dropped; the argument expressions are kept and still evaluated, so their
+        index / overflow obligations remain.  (Identifiers captured inside the format string are
+        plain variable reads and cannot panic.)"""
+        n = 0
+        i = 0
+        while i < len(self.toks) - 2:
+            t = self.toks[i]
+            if t.s in ("write", "writeln") and self.toks[i + 1].s == "!" and self.toks[i + 2].s == "(" and t.line != 0:
+                c = match_close(self.toks, i + 2)
+                # split top-level commas
+                parts = []
+                cur = []
+                d = 0
+                for q in range(i + 3, c):
+                    x = self.toks[q].s
+                    if x in OPEN:
+                        d += 1
+                    elif x in CLOSE:
+                        d -= 1
+                    if x == "," and d == 0:
+                        parts.append(cur)
+                        cur = []
+                    else:
+                        cur.append(self.toks[q])
+                if cur:
+                    parts.append(cur)
+                if len(parts) < 1:
+                    raise LostAnchor("write! without a destination")
+                dest = render(parts[0]).strip()
+                rest = [render(p_).strip() for p_ in parts[2:]]
+                # named arguments `name = expr` keep only the expression
+                rest = [r.split("=", 1)[1].strip() if re.match(r"^[A-Za-z_][A-Za-z0-9_]*\s*=[^=]", r) else r for r in rest]
+                new = tokenize("%s(%s, (%s))" % (fn, dest, "".join(r + ", " for r in rest)))
+                for z in new:
+                    z.line = t.line
+                new[0].ws = t.ws
+                self.toks[i:c + 1] = new
+                n += 1
+                i += len(new)
+                continue
+            i += 1
+        if n != expect:
+            raise LostAnchor("sink: found %d write!/writeln! statements in %s, expected %d" % (n, self.path, expect))
+        self.log.append({"kind": "sink", "count": n, "why": "formatting dropped, argument expressions kept"})
+
     def desugar_match_str(self, nth, eqfn):
         """match T { "a" => {A} "b" => {B} _ => {Z} }  ==>
            if eqfn(T, "a") {A} else if eqfn(T, "b") {B} else {Z}
